@@ -40,11 +40,18 @@ Definition any : str := A1.any.
 (* string(input.Next()): a byte converted as a rune *)
 Definition enc (c : ascii) : str := [c].
 
+(* what ends a clause with an ERROR: the end of the input (a NUL), and - since the repair of the r14 finding "foo (>= 1.0, bar (>= 2.0)" -
+   the separators ',' '|' and a further opening character of the clause's own kind: an unterminated clause does not swallow
+   what follows it *)
+Definition bad_in_substvar (c : ascii) : bool := eqc c 0 || eqc c 44 || eqc c 124 || eqc c 36.
+Definition bad_in_number (c : ascii) : bool := eqc c 0 || eqc c 44 || eqc c 124 || eqc c 40.
+Definition bad_in_arch (c : ascii) : bool := eqc c 0 || eqc c 44 || eqc c 124 || eqc c 91.
+Definition bad_in_stage (c : ascii) : bool := eqc c 0 || eqc c 44 || eqc c 124 || eqc c 60.
 (* parseSubstvar *)
 Fixpoint substvar_loop (name : str) (i : str) : outcome (possi * str) :=
   match i with
   | [] => Err
-  | c :: r => if eqc c 0 then Err
+  | c :: r => if bad_in_substvar c then Err
               else if eqc c 125 then
                 (* a substvar is a whole alternative: blanks, then ',' '|' or the end (repair of the r12 finding "${foo} bar") *)
                 let r' := eat_ws r in
@@ -88,7 +95,7 @@ Definition parse_operator (i : str) : outcome (str * str) :=
 Fixpoint number_loop (num : str) (i : str) : outcome (str * str) :=
   match i with
   | [] => Err
-  | c :: r => if eqc c 0 then Err else if eqc c 41 then Ok (rev (eat_ws (rev num)), i) else number_loop (num ++ enc c) r
+  | c :: r => if bad_in_number c then Err else if eqc c 41 then Ok (rev (eat_ws (rev num)), i) else number_loop (num ++ enc c) r
   end.
 
 (* parsePossibilityVersion *)
@@ -107,7 +114,7 @@ Definition parse_version (i : str) : outcome (vrel * str) :=
 Fixpoint arch_name_loop (name : str) (i : str) : outcome (arch * str) :=
   match i with
   | [] => Err
-  | c :: r => if eqc c 0 then Err else if eqc c 33 then Err
+  | c :: r => if bad_in_arch c then Err else if eqc c 33 then Err
               else if eqc c 93 || is_ws c then arch_named name i
               else arch_name_loop (name ++ enc c) r
   end.
@@ -140,7 +147,7 @@ Fixpoint stage_loop (st : stage) (i : str) : outcome (stage * str) :=
   match i with
   | [] => Err
   | c :: r =>
-      if eqc c 0 then Err
+      if bad_in_stage c then Err
       else if eqc c 33 then
         if s_not st then Err
         else stage_loop {| s_not := true; s_name := s_name st |} r
